@@ -48,10 +48,10 @@ Proof.
     repeat (destruct Hf as [<- | Hf]; [simpl in Hd; repeat (destruct Hd as [<- | Hd]; [simpl; lia |]); contradiction |]).
     contradiction.
   - intros [rank H].
-    assert (E : map strip (dedup cyc_plan) = [{| fid := 0; fdeps := [1] |}; {| fid := 1; fdeps := [0] |}]) by (vm_compute; reflexivity).
+    assert (E : map strip (dedup cyc_plan) = [mkf 0 [1]; mkf 1 [0]]) by (vm_compute; reflexivity).
     rewrite E in H.
-    pose proof (H {| fid := 0; fdeps := [1] |} 1 (or_introl eq_refl) (or_introl eq_refl)) as H1.
-    pose proof (H {| fid := 1; fdeps := [0] |} 0 (or_intror (or_introl eq_refl)) (or_introl eq_refl)) as H2.
+    pose proof (H (mkf 0 [1]) 1 (or_introl eq_refl) (or_introl eq_refl)) as H1.
+    pose proof (H (mkf 1 [0]) 0 (or_intror (or_introl eq_refl)) (or_introl eq_refl)) as H2.
     simpl in H1, H2. assert (rank 1 < rank 0) by (apply H1; right; left; reflexivity).
     assert (rank 0 < rank 1) by (apply H2; left; reflexivity). lia.
 Qed.
@@ -67,7 +67,7 @@ Lemma dedup_drops_dependency_refuted_proof :
     ~ before (Merge (rep l d)) (Prepare (rep l (lf_id f))) s.
 Proof.
   exists drop_plan, (mk 2 [5] 7), 5.
-  exists (Sequence [Parallel [Single {| fid := 1; fdeps := [] |}; Single {| fid := 5; fdeps := [] |}]]).
+  exists (Sequence [Parallel [Single (mkf 1 []); Single (mkf 5 [])]]).
   exists [Prepare 1; Merge 1; Prepare 5; Merge 5].
   split; [apply has_dup_false; vm_compute; reflexivity |].
   split.
@@ -82,7 +82,7 @@ Proof.
   split; [vm_compute; reflexivity |].
   split.
   { change [Prepare 1; Merge 1; Prepare 5; Merge 5] with
-      (run_lr (Sequence [Parallel [Single {| fid := 1; fdeps := [] |}; Single {| fid := 5; fdeps := [] |}]])).
+      (run_lr (Sequence [Parallel [Single (mkf 1 []); Single (mkf 5 [])]])).
     apply run_lr_lin. }
   assert (E1 : rep drop_plan 5 = 5) by (vm_compute; reflexivity).
   assert (E2 : rep drop_plan (lf_id (mk 2 [5] 7)) = 1) by (vm_compute; reflexivity).
